@@ -369,7 +369,7 @@ def scen_expect(with_op, real):
     def scen(ip, repo):
         times, A, n = real_seq('times')
         states, F, _ = v_seq('states', n)
-        ip.assume(n >= 1)
+        ip.assume(n >= 1)      # (an empty Dynamics returns (None, None) by design: checked natively, not under this contract)
         d0 = Int('dim')
         shape = (d0, d0)
         self_ = mkobj(repo, 'dynamics.Dynamics', _times=times, _states=states, _shape=shape)
